@@ -18,22 +18,46 @@ func init() { Families["order"] = orderScenario }
 
 func orderScenario(p map[string]any) *Scenario {
 	capa, hist := pint(p, "cap", -1), splitOps(pstr(p, "hist", "touch w/d/n1; touch w/d/n2; touch w/d/n3"))
-	sc := &Scenario{Name: fmt.Sprintf("order/cap%d/%s", capa, strings.Join(hist, ";")), Params: p}
+	w2 := splitOps(pstr(p, "w2", "")) // paths a second Watcher adds (in this order), "" = no second Watcher
+	sc := &Scenario{Name: fmt.Sprintf("order/cap%d/%s/%s", capa, strings.Join(hist, ";"), strings.Join(w2, ";")), Params: p}
+	type wst struct {
+		st *SeqState
+		fd int
+	}
 	sc.Body = func(x *X) {
 		mkFixture("std")
-		w, err := x.NewWatcher(capa)
-		mustNil(err)
-		st := &SeqState{X: x, W: w, M: NewIdeal(), Skip: map[string]bool{}}
-		x.Vars["seq"] = st
-		vs := vsys.Get()
-		for _, pth := range []string{"w/d", "w/f"} {
-			before := len(vs.Calls)
-			e := x.Add(w, pth)
-			st.M.Add(pth, e, append([]vsys.Call{}, vs.Calls[before:]...), 0)
+		var ws []*wst
+		mk := func(paths []string) {
+			w, err := x.NewWatcher(capa)
+			mustNil(err)
+			vs := vsys.Get()
+			st := &SeqState{X: x, W: w, WI: x.widx(w), M: NewIdeal(), Skip: map[string]bool{}}
+			for _, pth := range paths {
+				before := len(vs.Calls)
+				e := x.Add(w, pth)
+				st.M.Add(pth, e, append([]vsys.Call{}, vs.Calls[before:]...), 0)
+			}
+			ws = append(ws, &wst{st, vs.Fds[len(vs.Fds)-1]})
+			if len(w2) == 0 {
+				x.Consume(w, fmt.Sprintf("consumer%d", st.WI), ConsumerMode{Events: true, Errors: pstr(p, "cons", "both") == "both"})
+			}
 		}
-		x.Consume(w, "consumer", ConsumerMode{Events: true, Errors: pstr(p, "cons", "both") == "both"})
+		if len(w2) > 0 {
+			capa = 64 // two Watchers: large buffers and consumers attached afterwards, so that only the harness and the two readers interleave
+		}
+		mk([]string{"w/d", "w/f"})
+		if len(w2) > 0 {
+			mk(w2)
+		}
+		x.Vars["ws"] = ws
 		for _, op := range hist {
-			st.DoOp(op)
+			ws[0].st.DoOp(op)
+		}
+		if len(w2) > 0 {
+			x.Quiesce()
+			for _, w := range ws {
+				x.Consume(w.st.W, fmt.Sprintf("consumer%d", w.st.WI), ConsumerMode{Events: true})
+			}
 		}
 	}
 	sc.Check = func(x *X, e *End) []Violation {
@@ -41,27 +65,35 @@ func orderScenario(p map[string]any) *Scenario {
 		if e.Failure != "" {
 			return []Violation{{Property: "C06", Signature: "panic: " + panicSite(e.Failure), Detail: e.Failure}}
 		}
-		st := x.Vars["seq"].(*SeqState)
+		ws, _ := x.Vars["ws"].([]*wst)
 		vs := vsys.Get()
-		var exp []Expect
-		var pos int64
-		for _, b := range vs.Reads {
-			recs, _ := ParseRecords(b, pos)
-			pos += int64(len(b))
-			for _, r := range recs {
-				exp = append(exp, st.M.Record(r))
+		for wi, w := range ws {
+			var exp []Expect
+			var pos int64
+			for i, b := range vs.Reads {
+				if vs.ReadFd[i] != w.fd {
+					continue
+				}
+				recs, _ := ParseRecords(b, pos)
+				pos += int64(len(b))
+				for _, r := range recs {
+					exp = append(exp, w.st.M.Record(r))
+				}
 			}
-		}
-		// everything the kernel queued must have been read in a maximal execution
-		var got []Got
-		for _, o := range x.Log {
-			if o.Kind == "event" {
-				got = append(got, Got{o.Name, o.Op, o.From})
+			var got []Got
+			for _, o := range x.Log {
+				if o.Kind == "event" && o.W == wi {
+					got = append(got, Got{o.Name, o.Op, o.From})
+				}
 			}
-		}
-		for _, pr := range Align(exp, got) {
-			for _, prop := range catProp[pr.Cat] {
-				out = append(out, Violation{Property: prop, Signature: pr.Cat + ": " + pr.Sig, Detail: pr.Detail})
+			for _, pr := range Align(exp, got) {
+				props := catProp[pr.Cat]
+				if len(ws) > 1 {
+					props = append(append([]string{}, props...), "C14")
+				}
+				for _, prop := range props {
+					out = append(out, Violation{Property: prop, Signature: fmt.Sprintf("watcher %d: %s: %s", wi, pr.Cat, pr.Sig), Detail: pr.Detail})
+				}
 			}
 		}
 		return out
@@ -70,13 +102,30 @@ func orderScenario(p map[string]any) *Scenario {
 		var b strings.Builder
 		for _, o := range x.Log {
 			if o.Kind == "event" {
-				fmt.Fprintf(&b, "%d:%s;", o.Op, o.Name)
+				fmt.Fprintf(&b, "%d:%d:%s;", o.W, o.Op, o.Name)
 			}
 		}
 		fmt.Fprintf(&b, "reads=%d", len(vsys.Get().Reads))
 		return b.String()
 	}
 	return sc
+}
+
+// multiJobs: two Watchers on the same paths whose watch descriptors are numbered
+// differently, every interleaving of the two readers, their consumers and the
+// harness up to the bound (C14: nothing may be shared between Watchers).
+func multiJobs(tier string) []Job {
+	var jobs []Job
+	bound := 2
+	if tier == "thorough" {
+		bound = 3
+	}
+	for _, h := range []string{"touch w/d/n1; write w/f", "write w/f; touch w/d/n1; rm w/d/n1", "mv w/d/a w/d/c; write w/f"} {
+		for _, w2 := range []string{"w/f; w/d", "w/d2; w/f; w/d", "w/d"} {
+			jobs = append(jobs, Job{Family: "order", Bound: bound, Params: map[string]any{"cap": -1, "hist": h, "w2": w2, "cons": "events"}})
+		}
+	}
+	return jobs
 }
 
 func orderJobs(tier string) []Job {
